@@ -97,7 +97,16 @@ impl Kind {
     /// SliceInput, BorrowInput, ExactSizeInput-with-index-rebasing, StrInput, StrInput with borrowed
     /// slices — must agree with the `caps!` table in build.rs
     pub fn caps(self) -> Need {
-        let n = |slice, borrow, exact, strin, regex| Need { slice, borrow, exact, strin, regex };
+        let n = |slice, borrow, exact, strin, regex| Need { slice, borrow, exact, strin, regex, nest: false };
+        let nest = matches!(
+            self,
+            Kind::Slice | Kind::Bytes | Kind::Stream | Kind::StreamBoxed | Kind::StreamExact | Kind::Io | Kind::CtxSlice | Kind::CtxStream | Kind::CtxIo
+        );
+        let mut need = self.caps_base(n);
+        need.nest = nest;
+        need
+    }
+    fn caps_base(self, n: impl Fn(bool, bool, bool, bool, bool) -> Need) -> Need {
         match self {
             Kind::Slice | Kind::Array | Kind::CtxSlice | Kind::MapSpanSlice | Kind::MapSpanOfCtxSlice => n(true, true, true, true, true),
             Kind::CharSlice => n(true, true, true, false, false),
@@ -909,6 +918,9 @@ impl SrcSim {
                     if need.regex {
                         acc.inc("replica_runs.with_regex");
                     }
+                    if need.nest {
+                        acc.inc("replica_runs.with_nested_in(inner input built from a region of the outer one)");
+                    }
                     if gram::contains(g, &|x| matches!(x, G::Padded(_))) {
                         acc.inc("replica_runs.with_padded(skip_while)");
                     }
@@ -1136,6 +1148,7 @@ impl Engine for SrcSim {
             cfg.allow_text = rng.chance(1, 8);
             cfg.allow_regex = cfg.allow_text && rng.chance(1, 2);
             cfg.allow_pad = cfg.allow_text || rng.chance(1, 8);
+            cfg.allow_nest = !is_char && rng.chance(1, 8);
             if cfg.allow_text || cfg.allow_pad {
                 cfg.nsym = crate::tok::NSYM_TEXT;
             }
